@@ -20,6 +20,7 @@ func init() {
 	zzsv.Register("ZZ_C03_LongPrograms", ZZ_C03_LongPrograms)
 	zzsv.Register("ZZ_C03_MixedOperands", ZZ_C03_MixedOperands)
 	zzsv.Register("ZZ_C03_UnaryLiterals", ZZ_C03_UnaryLiterals)
+	zzsv.Register("ZZ_C03_TailJumps", ZZ_C03_TailJumps)
 }
 
 // zzSameObj: two results of the implementation are the same value.
@@ -536,4 +537,82 @@ func ZZ_C03_UnaryLiterals(sv *zzsv.T) {
 		zzDescribe(sv, "opt", o1, r1)
 		zzCompareTwo(sv, "C03.unary", e1, e2, o1, o2, r1, r2, tr1, tr2, []string{"x"})
 	}
+}
+
+// ZZ_C03_TailJumps: conditionals in tail position - the last statement of a
+// loop body, of an if-arm that has an else, of a switch arm, of a function
+// body - compile to jumps that land on other jumps; before them the program
+// has constant expressions the optimizer folds away (so every later offset
+// moves). Optimized and unoptimized agree, over two runs.
+func ZZ_C03_TailJumps(sv *zzsv.T) {
+	g := newGen(sv, 1)
+	g.small = true
+	p := zzTailProgram(sv, g)
+	src := p.text()
+	sv.Note("script", src)
+	var tr1, tr2 []object.Object
+	e1, err1 := zzPrepare(sv, src, g.vars, g.order, false, &tr1)
+	e2, err2 := zzPrepare(sv, src, g.vars, g.order, true, &tr2)
+	sv.Assert("C03.tail.prepare_agree", (err1 == nil) == (err2 == nil))
+	if err1 != nil || err2 != nil {
+		return
+	}
+	for run := 0; run < 2; run++ {
+		tr1, tr2 = nil, nil
+		o1, r1 := e1.Execute(nil)
+		o2, r2 := e2.Execute(nil)
+		zzDescribe(sv, "opt", o1, r1)
+		zzCompareTwo(sv, "C03.tail", e1, e2, o1, o2, r1, r2, tr1, tr2, []string{"x", "w1"})
+	}
+}
+
+// zzTailProgram builds the programs of ZZ_C03_TailJumps (also verified by
+// C18 and held against the reference interpreter by C02).
+func zzTailProgram(sv *zzsv.T, g *zzGen) *zzProg {
+	c0 := g.intVar("c0")
+	c1 := g.intVar("c1")
+	var prefix []*zzStmt
+	switch sv.Choice("prefix", 4) {
+	case 1:
+		prefix = []*zzStmt{stSet("x", xBin("+", xLit(1), xLit(2)))}
+	case 2:
+		prefix = []*zzStmt{stSet("x", xBin("+", xBin("+", xLit(1), xLit(2)), xLit(3))), stT(xBin("*", xLit(2), xLit(5)))}
+	case 3:
+		prefix = []*zzStmt{stIf(xBin("==", xLit(1), xLit(1)), stSet("x", xLit(4)))}
+	}
+	leaf := func() *zzStmt { return stSet("x", xBin("+", xVar("x"), g.id())) }
+	var tail *zzStmt
+	switch sv.Choice("tail", 5) {
+	case 0:
+		tail = stIf(xBin("==", c0, xLit(3)), leaf())
+	case 1:
+		tail = &zzStmt{kind: sIf, e: xBin("<", c0, c1), body: []*zzStmt{leaf()}, hasEl: true, els: []*zzStmt{stT(g.id())}}
+	case 2: // if/else nested in the arm of an if/else
+		inner := &zzStmt{kind: sIf, e: xBin("<", xLit(4), c0), body: []*zzStmt{stSet("x", xBin("+", xVar("x"), xBin("*", xLit(2), xLit(3))))}, hasEl: true, els: []*zzStmt{leaf()}}
+		tail = &zzStmt{kind: sIf, e: xBin("<", xLit(2), c0), body: []*zzStmt{inner}, hasEl: true, els: []*zzStmt{leaf()}}
+	case 3:
+		tail = &zzStmt{kind: sSwitch, e: c0, cases: []zzCase{{exprs: []*zzExpr{xLit(1)}, body: []*zzStmt{stIf(c1, leaf())}}, {dflt: true, body: []*zzStmt{stT(g.id())}}}}
+	default:
+		tail = &zzStmt{kind: sExpr, e: xTern(xBin("<", c0, c1), g.id(), g.id())}
+	}
+	p := &zzProg{}
+	switch sv.Choice("place", 4) {
+	case 0: // last statement of a while body
+		w := g.need("w1", func() zv {
+			x := sv.Int64("w1")
+			sv.Assume(x >= 0 && x <= 2)
+			return zInt(x)
+		})
+		p.main = append(prefix, stWhile(xBin("<", w, xLit(2)), stSet("w1", xBin("+", w, xLit(1))), stT(w), tail), stT(g.id()), stRet(xVar("x")))
+	case 1: // last statement of a foreach body
+		p.main = append(prefix, stEach("", "v", g.iterable(), stT(xVar("v")), tail), stT(g.id()), stRet(xVar("x")))
+	case 2: // last statement of a function body, called twice
+		p.funcs = []*zzFunc{{name: "f", params: []string{"q"}, body: append(append([]*zzStmt{}, prefix...), stT(xVar("q")), tail)}}
+		p.main = []*zzStmt{stCall("f", xLit(1)), stCall("f", c0), stT(g.id()), stRet(xVar("x"))}
+	default: // last statement of the arm of an if that has an else, inside a loop
+		outer := &zzStmt{kind: sIf, e: c1, body: []*zzStmt{stT(g.id()), tail}, hasEl: true, els: []*zzStmt{stT(g.id())}}
+		p.main = append(prefix, stEach("", "v", g.iterable(), outer), stT(g.id()), stRet(xVar("x")))
+	}
+	g.need("x", func() zv { return zInt(0) })
+	return p
 }
